@@ -4,3 +4,8 @@ claim("C09", "proof", "who-may-call over whole-program call graph + offset prove
       "Sound over-approximation of all call paths: no exported read-style API reaches a WriteAt/Truncate sink; Truncate only from FlushRevert, behind !readOnly and a successful scan, with the scanned size; CopyTo touches its source only through read-style functions; every WriteAt offset is an atomic load of Store.size plus non-negative terms and Store.size only grows on the write path. A proof of the call-path clause (the property's 'for all call paths' quantifier); the value-level premise that Store.size at open is the end of the last durable root record is cited from C03 (atom A9), not re-proved.",
       "Trusted: go/types+go/ssa; callbacks and StoreFile implementations are user code; function values flow only into calls (checked each run); reflection limited to ValueOf/Elem/IsValid (checked each run).",
       "DESIGN.md §4 C09")
+
+claim("C19", "proof", "call-path disjointness + context-sensitive value-demand reachability (go/ssa)",
+      "The property is a statement about code paths and is decided as one: the file reads reachable from open are disjoint from node/item/value loading; every value-read site is guarded by a value-demand parameter and is unreachable from every key-only entry in every (function x flag-state) context; the remaining item/node reads have constant, guard-pinned or exactly-key-sized buffers. All call paths are covered by a sound over-approximation, hence proof level.",
+      "Trusted: go/types+go/ssa; neutral callbacks (ItemAlloc returns a key of the requested length; values are read only through ItemValRead); closed-world premises checked by C09's A-closed.",
+      "DESIGN.md §4 C19")
